@@ -175,6 +175,15 @@ C10Step(s, t, ev) == EscrowOnlyByStreamOps(s, t, ev)
 C11State(s) == Sustained(s)
 
 ------------------------------------------------------------------------------
+(* C06: classification of an admission the ideal rule refuses, by the one deviation of the code that explains it *)
+NestedRegistryOps(msgs) == \E k \in {"wrk", "bcn"} : Len(AllOps(msgs, k)) # Len(TopOps(msgs, k))
+MixedTopLevel(msgs) == TopOps(msgs, "wrk") # <<>> /\ TopOps(msgs, "bcn") # <<>>
+AdmissionKind(s, ev) ==
+  IF NestedRegistryOps(ev.msgs) THEN "AdmittedNestedOpsNotCharged"
+  ELSE IF MixedTopLevel(ev.msgs) THEN "AdmittedMixedModulesPerModuleSum"
+  ELSE "AdmittedAgainstFeeRule"
+
+------------------------------------------------------------------------------
 (* C13 *)
 \* a transaction not signed by the parties its messages belong to changes nothing at all
 ModState(s) == <<s.ent.po, s.ent.rq, s.ent.aq, s.ent.wl, s.ent.locked, s.ent.spent, s.ent.p, s.wrk.p, s.wrk.ch, s.bcn.p, s.bcn.ch, s.str.p, s.str.s, s.bal, s.supply>>
